@@ -270,4 +270,71 @@ theorem weakest_of_soundAlong {s : State} (h : TInv s) (ops : List Op) (hs : Sou
   | nil => trivial
   | cons op ops ih => exact ⟨weakest_of_sound_step h op hs.2.head, ih (h.step op) hs.2⟩
 
+/-! ### one caller per cell (the structural assumption of `Reg2`): the caller's own order is the discipline -/
+
+/-- every `set_status` call of the run is made by thread 0 of the cell -/
+def single : Op → Bool
+  | .publish _ t _ => t == 0
+  | .bstep _ t => t == 0
+  | _ => true
+
+def SInv (s : State) : Prop := ∀ a t, (s.cell a).el = some t → t = 0
+
+theorem SInv.init : SInv init := by intro a t h; simp [Reg3.init] at h
+
+theorem SInv.step {s : State} (h : SInv s) (op : Op) (hs : single op = true) : SInv (step s op) := by
+  unfold SInv at h ⊢
+  cases op with
+  | spawn a name =>
+    simp only [Reg3.step]; split
+    · split
+      · intros; thr_auto
+      · split
+        · intros; thr_auto
+        · exact h
+    · exact h
+  | spawnRemote a name => simp only [Reg3.step]; split <;> intros <;> thr_auto
+  | publish a t st =>
+    simp only [single, beq_iff_eq] at hs
+    simp only [Reg3.step]; split
+    · split <;> intros <;> thr_auto
+    · exact h
+  | bstep a t =>
+    simp only [Reg3.step]
+    split
+    · next stmt rest st hpc =>
+      cases stmt with
+      | demonitor => simp only [exec]; intros; thr_auto
+      | unregPid => simp only [exec]; split <;> intros <;> thr_auto
+      | unregName => simp only [exec]; split <;> (try split) <;> intros <;> thr_auto
+    · intros; thr_auto
+    · exact h
+
+theorem disc_of_single {s : State} (h : SInv s) (op : Op) (hs : single op = true) (ho : ownOrdered s op = true) :
+    disc s op = true := by
+  cases op with
+  | spawn a name => rfl
+  | spawnRemote a name => rfl
+  | bstep a t => rfl
+  | publish a t st =>
+    simp only [single, beq_iff_eq] at hs
+    simp only [ownOrdered, decide_eq_true_eq] at ho
+    simp only [disc, Bool.or_eq_true, decide_eq_true_eq]
+    right
+    intro _
+    refine ⟨?_, ho⟩
+    cases hel : (s.cell a).el with
+    | none => exact .inl rfl
+    | some t' => right; rw [h a t' hel, hs]
+
+theorem disc_of_single_run {s : State} (h : SInv s) (ops : List Op) (hs : ops.all single = true)
+    (ho : All ownOrdered s ops = true) : Disc s ops = true := by
+  induction ops generalizing s with
+  | nil => rfl
+  | cons op ops ih =>
+    simp only [List.all_cons, Bool.and_eq_true] at hs
+    simp only [All, Bool.and_eq_true] at ho
+    simp only [Disc, All, Bool.and_eq_true]
+    exact ⟨disc_of_single h op hs.1 ho.1, ih (h.step op hs.1) hs.2 ho.2⟩
+
 end Reg3
